@@ -72,7 +72,7 @@ def canon_exc(e):
         except Exception:
             d[k] = repr(v)
     cause = e.__cause__
-    return {'type': type(e).__name__, 'module': type(e).__module__, 'args': repr(e.args), 'dict': repr(d),
+    return {'type': type(e).__name__, 'module': type(e).__module__, 'args': repr(e.args), 'dict': repr(d), 'dict_keys': sorted(d),
             'cause_type': type(cause).__name__ if cause is not None else None,
             'cause_text': (str(cause)[:4000] if cause is not None else None)}
 
@@ -121,6 +121,7 @@ def run_call(pool, call, res):
     if kind == 'apply_batch' and dyn:
         func = getattr(userfuncs, 'task_' + bits)
     out = {'kind': kind}
+    partial = []
     t0 = time.time()
     try:
         if kind in ('map', 'map_unordered', 'imap', 'imap_unordered'):
@@ -137,7 +138,7 @@ def run_call(pool, call, res):
             consume = call.get('consume')        # for lazy variants: how many items to take, then close
             if kind in ('imap', 'imap_unordered'):
                 gen = getattr(pool, kind)(func, data, **params)
-                got = []
+                got = partial
                 if consume is None:
                     for x in gen:
                         got.append(x)
@@ -185,7 +186,7 @@ def run_call(pool, call, res):
                     vals.append(['ok', v if (isinstance(v, list) and v and v[0] in ('R', 'Q')) else userfuncs.canon(v)])
                 except BaseException as e:       # noqa
                     vals.append(['exc', type(e).__name__, repr(e.args)])
-            if not call.get('join_first'):
+            if not call.get('join_first') and not call.get('no_join'):
                 pool.stop_and_join()
             out['value'] = vals
             out['ready'] = [a.ready() for a in asyncs]
@@ -235,12 +236,19 @@ def run_call(pool, call, res):
             pool.terminate()
         elif kind == 'sleep':
             time.sleep(call['s'])
+        elif kind == 'kill_idle_worker':
+            # SIGKILL worker w of an idle (kept-alive / apply) pool
+            w = pool._workers[call['worker'] % len(pool._workers)]
+            out['killed_pid'] = w.pid
+            os.kill(w.pid, signal.SIGKILL)
+            time.sleep(call.get('settle', 0.5))
         else:
             raise ValueError('unknown call kind ' + kind)
         out['outcome'] = 'ok'
     except BaseException as e:      # noqa: the outcome of the call IS the datum
         out['outcome'] = 'exc'
         out['exc'] = canon_exc(e)
+        out['partial'] = [v if (isinstance(v, list) and v and v[0] in ('R', 'Q')) else userfuncs.canon(v) for v in partial]
         out['tb'] = traceback.format_exc()[-3000:]
     out['wall'] = time.time() - t0
     if call.get('want_exit_results'):
@@ -264,6 +272,20 @@ def main():
     budget = scen.get('budget', 60)
     stackfile = open(result_path + '.stacks', 'w')
     faulthandler.dump_traceback_later(budget, exit=True, file=stackfile)
+
+    def child_dump():
+        # shortly before the watchdog fires: ask every child for its stacks, record which children exist
+        time.sleep(max(budget - 2, 1))
+        snap = leak_snapshot()
+        for c in snap['children']:
+            try:
+                c['wchan'] = open(f"/proc/{c['pid']}/wchan").read()
+                os.kill(c['pid'], signal.SIGUSR2)
+            except OSError:
+                pass
+        with open(result_path + '.children', 'w') as fh:
+            json.dump(snap, fh)
+    threading.Thread(target=child_dump, daemon=True).start()
     res = {'id': scen.get('id'), 'calls': [], 'status': 'started'}
 
     def flush():
@@ -278,6 +300,31 @@ def main():
         with WorkerPool(2, start_method=scen['pool'].get('start_method', 'fork')) as p:
             p.map(userfuncs.task, range(4))
         res['baseline'] = leak_snapshot()
+    if scen.get('shapes'):
+        # which exception shapes can be transported by which pickler (decided without mpire)
+        import pickle
+        try:
+            import dill
+        except ImportError:
+            dill = None
+        tr = {}
+        for name in scen['shapes']:
+            e = userfuncs.make_exception(name, 0)
+            row = {}
+            for pname, pk in (('pickle', pickle), ('dill', dill)):
+                if pk is None:
+                    continue
+                try:
+                    pk.dumps(type(e)); pk.dumps(e.args); pk.dumps(e.__dict__)
+                    row[pname] = True
+                except Exception:
+                    row[pname] = False
+            row['args'] = repr(e.args)
+            row['type'] = type(e).__name__
+            row['repr'] = repr(e)
+            row['dict_keys'] = sorted(e.__dict__)
+            tr[name] = row
+        res['transport'] = tr
     pool_kw = dict(scen['pool'])
     try:
         pool = WorkerPool(**pool_kw)
